@@ -358,4 +358,9 @@ theorem countAttempts_body {P : Type} (cfg : Cfg) (s : Stored P) (outs : Nat →
       rw [hz ws (k + 1) (by omega)]
       omega
 
+theorem pow2_pos (k : Nat) : (0:Q) < 2 ^ k := by
+  induction k with
+  | zero => decide +kernel
+  | succ n ih => rw [Rat.pow_succ]; grind
+
 end Sio.Reconnect
